@@ -77,7 +77,8 @@ int sqfs_id_table_id_to_index(sqfs_id_table_t *tbl, sqfs_u32 id, sqfs_u16 *out)
 		}
 	}
 
-	if (tbl->ids.used == 0x10000)
+	/* the super block stores the number of IDs in a 16 bit field */
+	if (tbl->ids.used >= 0xFFFF)
 		return SQFS_ERROR_OVERFLOW;
 
 	*out = tbl->ids.used;
